@@ -132,6 +132,11 @@ import BGV
 -- C09
 #print axioms BGV.C09_reversed
 #print axioms BGV.C09_reversed_twice
+#print axioms BGV.C09_dOfEdgeList
+#print axioms BGV.C09_uOfEdgeList
+#print axioms BGV.C09_getDirectedGraph
+#print axioms BGV.C09_uOfDirected
+#print axioms BGV.C09_und_dir_und
 
 -- C10
 #print axioms BGV.C10_getSubgraph
